@@ -255,6 +255,11 @@ def wrapper_steps(src, fn, kernel):
         for m in re.finditer(rx, body):
             found.append((m.start(), name))
             covered.append((m.start(), m.end()))
+            # a guard or the resize nested in another block (`if .. { scores.resize(..) }`), or a kernel
+            # call nested deeper than its `unsafe { }` block, is conditional: not the modelled step
+            depth = body[:m.start()].count("{") - body[:m.start()].count("}")
+            if depth > (1 if name == "WKernel" else 0):
+                found.append((m.start(), "WOther"))
     # anything else that can leave the wrapper early or resize the buffer
     for m in re.finditer(r"\breturn\b|\bpanic!|\.\s*resize\s*\(", body):
         if not any(a <= m.start() < b for a, b in covered):
